@@ -89,8 +89,10 @@ fn main() {
                 println!("{}", hist::render(&out.hist, 100000, has("--probes")));
             }
             println!("hash={:016x} events={} t_end={} cap_hit={} faults={:?} probes={:?} relevant={}", out.hist.hash.0, out.hist.evs.len(), hist::fmt_t(out.t_end), out.cap_hit, out.hist.fault_counts, res.probes, res.relevant);
+            let known = known::load(std::path::Path::new(&std::env::var("VERIF_DIR").unwrap_or_else(|_| "/verif".into())));
             for v in &res.violations {
-                println!("VIOLATION-DETAIL {} {} t={} {}", v.property, v.tag, hist::fmt_t(v.t), v.msg);
+                let k = known::matches(&known, &property, v.tag, &sc, &out, v).map(|f| f.id.clone());
+                println!("VIOLATION-DETAIL {} {} t={} known={:?} {}", v.property, v.tag, hist::fmt_t(v.t), k, v.msg);
             }
             for p in &out.hist.panics {
                 println!("PANIC {}", p);
